@@ -63,3 +63,112 @@ def replay(rep):
     if not fn:
         return 2
     return fn(rep.get("tier", "quick"), int(rep.get("seed", 1)))
+
+
+def _simple_api(pid, tier, seed, evalkey, rule, min_eval, variants=None, distinct="class", level="exploration", exhaustive=None, san="asan", stall_s=12.0):
+    chk = Check(pid, tier, seed, level=level)
+    chk.assumptions = ASSUME_API
+    variants = variants or (QUICK_V if tier == "quick" else [(4, 4), (1, 1), (8, 16)])
+    c, d, s = apiprops.run_api(chk, pid, variants, san=san, stall_s=stall_s)
+    extra = dict(counters=c, distinct_by_kind=d, chunk_variants=["chunk %dB / refill %dB" % (b * 16, h * 64) for b, h in variants])
+    return chk.finish(c.get(evalkey, 0), d.get(distinct, 0), rule, s, extra, min_evaluations=min_eval, exhaustive=exhaustive)
+
+
+@prop("C05")
+def c05(tier, seed):
+    return _simple_api("C05", tier, seed, "mutants",
+                       "genuine files (cmode x hmode, T in {1,2,4}, n in {0,1,15,16,17,c-1,c,3c+5}) x every bit flip, byte set, "
+                       "truncation, extension, 1/16-byte insertion and deletion at every offset, block/chunk/IV swaps, every "
+                       "value of both mode bytes, randomised zero-fill, multi-edits; oracle: accepted => plaintext == original; "
+                       "distinct = accepted-with-identical-plaintext (file, kind, offset) triples; rejected offsets counted separately",
+                       20000, distinct="rejected_offsets")
+
+
+@prop("C06")
+def c06(tier, seed):
+    return _simple_api("C06", tier, seed, "trials",
+                       "genuine files x {all 128 one-bit neighbours, random keys, half-equal keys, zero/ff, rotations, "
+                       "reversed, one byte zeroed}; oracle: verify false, decrypt false, zero writes on the output stream; "
+                       "distinct = (file, key class, index) rejected without output", 2000)
+
+
+@prop("C11")
+def c11(tier, seed):
+    return _simple_api("C11", tier, seed, "inputs",
+                       "tiny strings, random strings of every length 0..200, magic + every (mode byte pair) + random rest at "
+                       "header-edge lengths, and all structural mutants of genuine files (truncation at every length, every value "
+                       "of both mode bytes, randomised unauthenticated bytes...) through verify AND decrypt under ASan+UBSan; "
+                       "oracle: no crash/hang/report, success only if independently authentic, no output on failure, output <= body; "
+                       "distinct = (class, offset, arg, length)", 20000)
+
+
+@prop("C12")
+def c12(tier, seed):
+    return _simple_api("C12", tier, seed, "pairs",
+                       "genuine (incl. chunk-boundary lengths), tampered, truncated, garbage and wrong-key inputs, each through "
+                       "execute_verify and execute_decrypt; oracle: equal verdicts, verify writes nothing, no write reaches an "
+                       "input stream; distinct = (class, offset, arg, length, verdict)", 20000)
+
+
+def _acc(tot, c):
+    for k, v in c.items():
+        if k.startswith("max_"):
+            tot[k] = max(tot.get(k, v), v)
+        else:
+            tot[k] = tot.get(k, 0) + v
+
+
+@prop("C07")
+def c07(tier, seed):
+    chk = Check("C07", tier, seed)
+    chk.assumptions = ASSUME_API
+    sweep_v = [(4, 4)] if tier == "quick" else [(4, 1), (4, 2), (4, 4), (4, 16)]
+    C, D = {}, {}
+    c, d, s = apiprops.run_api(chk, "C07", sweep_v, extra_args=["--sub", "sweep"])
+    _acc(C, c); _acc(D, d)
+    # production refill size and the 2^32-bit counter: optimised build, no size override
+    c2, d2, s2 = apiprops.run_api(chk, "C07", [(None, None)], san="fast", extra_args=["--sub", "large"], stall_s=120.0)
+    _acc(C, c2); _acc(D, d2)
+    extra = dict(counters=C, distinct_by_kind=D, residues_mod_64_covered=D.get("residue", 0),
+                 refill_variants=["%dB" % (h * 64) for _, h in sweep_v] + ["32MiB (production)"])
+    return chk.finish(C.get("digests_compared", 0), D.get("class", 0),
+                      "every message length 0..4R+130 for refill size R x {sha1, md5, sha256} x entry point {string, file "
+                      "buffer, file buffer with 64-byte prefix block (the HMAC path), file positioned at a non-zero offset}, "
+                      "contents random / zeros / 0xff / 0x80-terminated; plus production refill boundaries (32 MiB +-1, 64 MiB+63) "
+                      "and synthetic streams of >= 2^29 bytes crossing the 2^32-bit counter; distinct = (alg, entry, len mod 64, "
+                      "refills) classes whose digest equalled libcrypto's", s + s2, extra, min_evaluations=3000)
+
+
+@prop("C08")
+def c08(tier, seed):
+    return _simple_api("C08", tier, seed, "hmacs_compared",
+                       "messages of every length 0..600 (thorough 0..2100) x 3 hashes x start position {0,1,48,len} x keys "
+                       "(random, all-zero, all-ff): gethmac vs RFC 2104 HMAC from libcrypto; cmphmac must accept the right tag and "
+                       "reject single-bit variants (all 8*hlen bits on a subset); generated files for T=1..16: tag at [10,10+hlen) == "
+                       "HMAC(key, file[48:]), zero fill to 48; distinct = (hash, inner length mod 64, position kind) and file classes",
+                       5000)
+
+
+@prop("C09")
+def c09(tier, seed):
+    chk = Check("C09", tier, seed)
+    chk.assumptions = ASSUME_API
+    c, d, s = apiprops.run_api(chk, "C09", [(4, 4)], san="asan" if tier == "quick" else "fast", stall_s=60.0)
+    extra = dict(counters=c, tables_exhaustive=bool(c.get("tables_exhaustive")),
+                 note="tables and the Gmul macro are recomputed exhaustively; the (key, block) space is sampled")
+    return chk.finish(c.get("pairs_compared", 0), d.get("class", 0),
+                      "FIPS-197 C.1; all single-bit keys/blocks; every byte value in every key and block position; random keys x 64 "
+                      "blocks each (object reused and fresh), every pair encrypted, compared with libcrypto AES-128-ECB, decrypted "
+                      "back, and the decryptor compared with libcrypto on independent data; s_box/rs_box/Logtable/Alogtable[0..492]/RC "
+                      "and Gmul for all 256 values x 7 multipliers recomputed from GF(2^8) first principles; distinct = key/block sets",
+                      s, extra, min_evaluations=100000)
+
+
+@prop("C10")
+def c10(tier, seed):
+    return _simple_api("C10", tier, seed, "blocks_compared",
+                       "SP 800-38A F.1-F.5 vectors; random keys/IVs with 0..300 blocks; IVs ending in 1..16 0xFF bytes, IV = 2^128-j, "
+                       "low counter bytes about to wrap; all-zero plaintext; long streams past 2^16 (thorough: 2^24) blocks; invalid "
+                       "type numbers 5..255 must give NULL; every block compared in lock-step with an EVP context and decrypted back "
+                       "by the matching decryptor object; distinct = (mode, family, length, carry) classes", 50000,
+                       variants=[(4, 4)], san="asan", stall_s=120.0)
